@@ -866,6 +866,7 @@ theorem step_fresh (P : Params) (s : Node) (ev : Event) (hne : ev.isEntry = fals
   | peerDown p => exact h
   | tick e => simp only [step, prepare]; rw [forward_not_stored _ _ _ h.1]; exact h
   | restart => exact h
+  | loopback b p => exact h
 
 theorem run_fresh (P : Params) (s : Node) (evs : List Event) (hne : ∀ ev ∈ evs, ev.isEntry = false)
     (h : Fresh s) : Fresh (run P s evs) := by
@@ -903,6 +904,7 @@ theorem prepare_sprayInv (s : Node) (ev : Event) (hne : ev.isEntry = false)
   | peerDown p => exact ⟨ha, ⟨h.budget, h.md⟩⟩
   | tick e => exact ⟨ha, h⟩
   | restart => exact ⟨ha, ⟨h.budget, fun m hm => by simp [prepare] at hm⟩⟩
+  | loopback b p => exact ⟨ha, h⟩
 
 theorem submit_sprayInv (s : Node) (e : Env) (ha : s.algo = .spray) (hf : Fresh s) :
     SprayInv (step fixed s (.submit e)) := by
@@ -1127,6 +1129,7 @@ theorem prepare_qinv (s : Node) (ev : Event) (hne : ev.isEntry = false)
   | peerDown p => exact ⟨ha, h⟩
   | tick e => exact ⟨ha, h⟩
   | restart => exact ⟨ha, fun m hm => by simp [prepare] at hm⟩
+  | loopback b p => exact ⟨ha, h⟩
 
 theorem spray_run_qinv (s : Node) (ha : s.algo = .spray) (hf : Fresh s) (pre rest : List Event)
     (e : Env) (hpre : ∀ ev ∈ pre, ev.isEntry = false) (hrest : ∀ ev ∈ rest, ev.isEntry = false)
@@ -1213,7 +1216,8 @@ theorem waits_run (s : Node) (evs : List Event) (hne : ∀ ev ∈ evs, ev.isEntr
       | peerUp p e => exact ⟨q1, q2, q3⟩
       | peerDown p => exact ⟨q1, q2, q3⟩
       | tick e => exact ⟨q1, q2, q3⟩
-      | restart => exact ⟨q1, fun m hm => by simp [prepare] at hm, q3⟩)
+      | restart => exact ⟨q1, fun m hm => by simp [prepare] at hm, q3⟩
+      | loopback b p => exact ⟨q1, q2, q3⟩)
     (fun t e ⟨q1, q2, q3⟩ => by
       have hw := forward_waits t e (fun m hm => by rw [q1]; exact q2 m hm)
       refine ⟨(forward_config fixed t e).2.2.1.trans q1, fun m hm => q2 m (by rw [← hw.1]; exact hm), ?_⟩
